@@ -332,7 +332,10 @@ def gen_task_arr(rng, allow_prefix=True):
     k = wchoice(rng, [(10, "spo"), (3, "per"), (4, "cur"), (1.5, "xcur"), (2.5, "nest"), (0.6 if allow_prefix else 0, "pre"), (0.4, "never")])
     if k == "spo":
         T = rng.randint(2, 40)
-        J = wchoice(rng, [(4, 0), (3, rng.randint(0, T)), (1, rng.randint(T, 2 * T + 5))])
+        # jitter: none, below the period, above it, or exactly at / next to a multiple of the period
+        # (several jobs released together, thresholds of every ceil((delta + J) / T))
+        J = wchoice(rng, [(4, 0), (3, rng.randint(0, T)), (1, rng.randint(T, 2 * T + 5)),
+                          (1.2, max(0, rng.choice([1, 2, 3]) * T + rng.choice([-1, 0, 0, 1])))])
         return ("spo", T, J)
     if k == "per":
         return ("per", rng.randint(2, 40))
@@ -378,6 +381,25 @@ def gen_dense_taskset(rng, nhp=None):
     T = max(C, -(-C * rest.denominator // rest.numerator))     # ceil(C / rest)
     J = wchoice(rng, [(5, 0), (1, rng.randint(1, max(1, T // 2)))])
     return hp, (("spo", T, J), C)
+
+
+def gen_small_taskset(rng, nhp=None):
+    """small-scope sporadic task set: every parameter tiny (periods 3..12, WCETs 1..4, jitter 0..T), total
+    utilisation below 1 but otherwise unconstrained — with such periods the utilisation is usually high
+    and the busy window spans many jobs of several tasks, so every offset-pruning rule is exercised.
+    Returns (hp tasks [(arr, C)], analysed task (arr, C))"""
+    from fractions import Fraction
+    for _ in range(50):
+        n = nhp if nhp is not None else rng.randint(1, 3)
+        ts = []
+        for i in range(n + 1):
+            T = rng.randint(3, 12) if i < n else rng.randint(4, 14)
+            C = rng.randint(1, min(4, T - 1)) if i < n else rng.randint(1, min(5, T - 1))
+            J = wchoice(rng, [(6, 0), (2, rng.randint(1, T)), (1, rng.choice([T - 1, T, T + 1]))])
+            ts.append((("spo", T, J), C))
+        if sum(Fraction(c, a[1]) for a, c in ts) < 1:
+            return ts[:-1], ts[-1]
+    return [], (("spo", 10, 0), 2)
 
 
 def gen_limit(rng):
